@@ -164,7 +164,11 @@ def call_site(chk):
                 try:
                     pe.block(I.body, env)
                 except (Undecided, Raised) as e:
-                    problems.append(f'{rvpid}: not decided ({e})')
+                    if str(e).startswith('condition '):
+                        problems.append(f'{rvpid}: a run-time test ({str(e)[10:]}) in the per-file loop decides whether/how this file is unpacked: '
+                                        f'a path can skip the kernel call (original or merged particles never written) or change its arguments')
+                    else:
+                        problems.append(f'{rvpid}: not decided ({e})')
                     continue
                 kc_ = [c for c in pe.calls if c[0] in ('self._unpack_rv_subsamples', 'self._unpack_pid_subsamples')]
                 wantfn = 'self._unpack_rv_subsamples' if rvpid == 'rv' else 'self._unpack_pid_subsamples'
